@@ -296,6 +296,8 @@ func cmdCheck(args []string) {
 	var mu sync.Mutex
 	var inconclusive []string
 	var crashes []ViolRec
+	const maxDeaths = 40
+	deaths, skippedAfterDeaths := 0, 0
 	ch := make(chan chunk)
 	var wg sync.WaitGroup
 	var fileSeq int
@@ -307,6 +309,14 @@ func cmdCheck(args []string) {
 				lo := c.lo
 				for lo < c.hi {
 					mu.Lock()
+					if deaths >= maxDeaths {
+						// the verdict is settled (every death is a violation); a tree that kills the worker in
+						// case after case would otherwise take hours (each death costs a process start and,
+						// for a stack overflow, a gigabyte of stack)
+						skippedAfterDeaths += c.hi - lo
+						mu.Unlock()
+						break
+					}
 					fileSeq++
 					out := filepath.Join(work, fmt.Sprintf("w%06d.txt", fileSeq))
 					mu.Unlock()
@@ -346,6 +356,7 @@ func cmdCheck(args []string) {
 							// continue after the crashing case
 							total.Evaluations += dangling - lo + 1
 							lo = dangling + 1
+							deaths++
 						default:
 							inconclusive = append(inconclusive, fmt.Sprintf("worker for %s cases %d..%d ended without a summary (lastEnd=%d, err=%v): %s", c.job.Kind, lo, c.hi, lastEnd, runErr, tailOf(out+".stderr", 5)))
 							lo = c.hi
@@ -366,6 +377,9 @@ func cmdCheck(args []string) {
 	close(ch)
 	wg.Wait()
 	total.Viols = append(total.Viols, crashes...)
+	if skippedAfterDeaths > 0 {
+		fmt.Printf("NOTE exploration cut short after %d worker process deaths: %d cases not run (the verdict is VIOLATION already)\n", deaths, skippedAfterDeaths)
+	}
 	finish(*prop, *tier, *seed, *root, *outRoot, jobs, total, shapes, inconclusive, time.Since(start))
 }
 
